@@ -82,8 +82,14 @@ def gen_message(rng, simple=False):
             v = "\n".join(gen.gen_text(rng, long_ok=False) for _ in range(rng.randint(2, 5)))
         elif r < 0.65:
             v = " ".join(rng.choice(["alpha", "beta", "gamma", "delta", "x" * 30, "tab\there"]) for _ in range(rng.randint(5, 30)))
-        else:
+        elif r < 0.97:
             v = gen.gen_value(rng, rng.choice([1, 2, 3]))
+        else:
+            # nested far beyond what the value generator produces, through lists (a tree, a tensor): every level stays visible
+            d = rng.choice([11, 12, 15, 25, 40])
+            v = "leaf-%d" % d
+            for lvl in range(d):
+                v = [lvl, v] if rng.random() < 0.8 else {"l%d" % lvl: v}
         m[k] = v
     return m
 
